@@ -46,7 +46,7 @@ NOT_APPLICABLE = {
 
 PROPS = {
     'C15': dict(
-        rules=[r_linear.rule_L01_c15, r_linear.rule_L01_convex],
+        rules=[r_linear.rule_L01_c15, r_linear.rule_L01_convex, r_linear.rule_L03_dimensions],
         feature_sets=_sets(['default'], ['default', 'u16', 'f32']),
         rules_thorough=[on_build(r_linear.rule_L01_c15, 'u16'), on_build(r_linear.rule_L01_c15, 'f32')],
         explanation=('(L01) weight-sum typing. The constructor and next() of every type that implements MovingAverage over a single value are '
@@ -63,7 +63,10 @@ PROPS = {
                      '(L01c) range containment of the window-less kinds the property lists as non-negative (EMA, DMA, TMA, RMA, WSMA): with explicit coefficients over the atoms '
                      '"input" and "previous value of each state field", every coefficient of the new state values and of the output is non-negative for every length '
                      '(certificate: after the shift k = kmin + j numerator and denominator have coefficients of one sign; a negative value at some length is the witness of a violation); '
-                     'together with coefficient sum 1 every update is a convex combination, so by induction the output stays in the range of the values seen.'),
+                     'together with coefficient sum 1 every update is a convex combination, so by induction the output stays in the range of the values seen. '
+                     '(L03) dimensional analysis of every moving average, including the non-linear ones (Vidya): the stream carries the unit price, configuration quantities and literals are pure numbers, the literal zero has every dimension; '
+                     'values outside the affine domain keep their dimension (price^d) and whether a translation of the stream leaves them unchanged. next() and new() may compare two quantities only when both have the same dimension and the same behaviour under translation '
+                     '(or a translation-invariant quantity with zero) and may add only quantities of one dimension: `movement > EPSILON` or `value + 1e-9` come out differently for a*x + b than for x.'),
         not_decided=['that each individual weight is the documented one (impulse response / weight profile): only the SUM of the weights and linearity are decided; non-negativity (range containment) only for the window-less kinds EMA, DMA, TMA, RMA, WSMA - the windowed kinds would need the invariant that ties the accumulator to the window contents',
                      'floating-point rounding: the argument is over the reals',
                      'SMM, Vidya, VWMA, Conv and the MA enum dispatch (S06 under C05 decides the wiring): outside the domain, listed as undecided'],
@@ -74,7 +77,7 @@ PROPS = {
         design_ref='DESIGN.md §11 "Weight-sum typing"',
     ),
     'C08': dict(
-        rules=[r_linear.rule_L01_c08, r_seed.l02_seed_degree, r_step.s07n_seed_reaches_state],
+        rules=[r_linear.rule_L01_c08, r_seed.l02_seed_degree, r_step.s07n_seed_reaches_state, r_formula.s07l_latch_seeding],
         feature_sets=_sets(['default'], ['default', 'u16', 'f32']),
         rules_thorough=[on_build(r_linear.rule_L01_c08, 'u16'), on_build(r_linear.rule_L01_c08, 'f32')],
         explanation=('(L01) for every method over a single value whose constructor and next() stay inside the affine-form domain (see C15): the state the '
@@ -87,7 +90,8 @@ PROPS = {
                      'compares x with it: a seed that is a price level (coefficient sum 1) for a method that is fed differences (coefficient sum 0), or the reverse, is reported - such an inner '
                      'method starts at the seed and decays towards the level of what it is fed, so the constant candle does not give constant values. 31 of 37 indicators are inside the path budget. '
                      '(S07n) on every path of every Method::new that returns Ok, the returned state is computed from the construction value (two named exceptions: the windowless ADI and CollapseTimeframe): '
-                     'a constructor that returns defaults - or primes copies it then drops - has no prehistory at all.'),
+                     'a constructor that returns defaults - or primes copies it then drops - has no prehistory at all. '
+                     '(S07l) every latch - a state field that every store in next() overwrites with one accessor of the current input (prev_close = candle.close(), last_value = value) - is seeded by new() / init() with the same accessor of the construction value.'),
         not_decided=['indicators (candle input), selections, dispersion methods and every method with a product of stream values or a stream-dependent branch: outside the domain, listed as undecided',
                      'exact constancy in floating point / absence of drift: the argument is over the reals',
                      'indicators: only the translation degree of a seed is decided (price level vs difference); a difference-like quantity that is not zero on a constant candle (high - low, volume) seeded with 0.0 is not seen; six indicators exceed the path budget and are listed as undecided'],
